@@ -268,7 +268,7 @@ def spec_pool(tier, primary="C08"):
 
 
 FS_PROGS = {
-    "mutex": ["lu.tu.lu", "tlu.lu", "jx.xw.N", "wn.nw.z", "lnu.lnu.tnu"],
+    "mutex": ["lu.tu.lu", "tlu.lu", "jx.xw.N", "wn.nw.z", "lnu.lnu.tnu", "W.F", "W.W.F", "Wlu.zF.W", "w.n", "w.N.w", "wz.zn"],
     "timed": ["lfu.tzu.fwn", "fu.lu.fu", "lu.f.f", "lnu.fnu.lnu"],
     "recursive": ["llu.lu.tu", "ltuu.lu", "llluuu.tlu.lu", "lnlnuu.lnu.tnu"],
     "recursive_timed": ["lflu.fu.lu", "llu.f.tu", "lnu.fnu.lnfnuu"],
